@@ -8,6 +8,7 @@ import (
 	"fmt"
 	"math/big"
 	"os"
+	"sort"
 	"strings"
 
 	"verif/gen/chaingen"
@@ -553,6 +554,33 @@ func (s *Sim) Invalidate(b *refchain.Block) {
 			s.K.Count("invalidate.returned_error", 1)
 		}
 		s.Manual[b] = true
+		// InvalidateBlock marks the whole subtree at once: every index entry that descends from b is recorded as
+		// invalid when the call returns (headers on top of any of them are refused from then on), whatever had been
+		// invalid inside that subtree before
+		var unmarked []string
+		for d := range s.Status {
+			if d == b || !s.InIndex(d) {
+				continue
+			}
+			desc := false
+			for n := d.Parent; n != nil && n.Height >= b.Height; n = n.Parent {
+				if n == b {
+					desc = true
+					break
+				}
+			}
+			if !desc {
+				continue
+			}
+			if inIdx, _, known, hooked := nodeStatus(s.N.Chain, &d.Hash); hooked && inIdx && !known {
+				unmarked = append(unmarked, d.Name)
+			}
+			s.K.Count("invalidate.descendants_checked", 1)
+		}
+		if len(unmarked) > 0 {
+			sort.Strings(unmarked)
+			s.Fail("invalidate:descendant-not-marked-invalid", "after InvalidateBlock(%s) the index still records descendant(s) %v as not invalid", b.Name, unmarked)
+		}
 	}
 	s.AfterOp("InvalidateBlock(" + b.Name + ")")
 }
